@@ -2673,6 +2673,72 @@ def _display_compares(tree):
     return count
 
 
+def _first_match_searches(tree, table_of):
+    """`for T in TABLE: if P(T): break` with an `else:` part, followed by the rest of the block (at most four statements,
+    ending the block): the search for the first row with P, as the chain it stands for —
+        if P(row1): REST[T := row1]   elif P(row2): REST[T := row2]  ..  else: ELSE-PART; REST
+    (the loop variables keep the matching row after the loop; the rest of the block is copied into every branch)."""
+    count = [0]
+
+    def rewrite(stmts, ctx):
+        out = list(stmts)
+        for i, st in enumerate(out):
+            for fld in ("body", "orelse", "finalbody"):
+                sub = getattr(st, fld, None)
+                if isinstance(sub, list) and sub and isinstance(sub[0], ast.stmt) and not isinstance(st, ast.ClassDef):
+                    setattr(st, fld, rewrite(sub, ctx))
+            if isinstance(st, ast.ClassDef):
+                st.body = rewrite(st.body, st.name)
+        for i, st in enumerate(out):
+            if not (isinstance(st, ast.For) and st.orelse and len(st.body) == 1 and isinstance(st.body[0], ast.If) and not st.body[0].orelse and len(st.body[0].body) == 1 and isinstance(st.body[0].body[0], ast.Break)):
+                continue
+            rest = out[i + 1 :]
+            if len(rest) > 4 or any(isinstance(n, (ast.Break, ast.Continue)) for r in rest for n in ast.walk(r)):
+                continue
+            rows = table_of(st.iter, ctx)
+            if not rows or len(rows) > MAX_ROWS:
+                continue
+            names = [t.id for t in ([st.target] if isinstance(st.target, ast.Name) else st.target.elts if isinstance(st.target, ast.Tuple) and all(isinstance(t, ast.Name) for t in st.target.elts) else [])]
+            if not names:
+                continue
+            # the loop variables are only read afterwards (and in the else part only assigned)
+            if any(isinstance(n, ast.Name) and n.id in names and isinstance(n.ctx, (ast.Store, ast.Del)) for r in rest for n in ast.walk(r)):
+                continue
+            test = st.body[0].test
+            chain = None
+            branches = []
+            ok = True
+            for row in rows:
+                m = {}
+                if not Unroller.bind(st.target, row, m):
+                    ok = False
+                    break
+                t_ = _FoldAttr().visit(_Subst(m).visit(copy.deepcopy(test)))
+                body = [_FoldAttr().visit(_Subst(m).visit(copy.deepcopy(r))) for r in rest] or [ast.Pass()]
+                branches.append((t_, body))
+            if not ok:
+                continue
+            tail = list(st.orelse) + [copy.deepcopy(r) for r in rest]
+            # an else part that just gives the loop variables their default row: substituted like a row
+            if all(isinstance(x, ast.Assign) and len(x.targets) == 1 for x in st.orelse):
+                m, good = {}, True
+                for x in st.orelse:
+                    if not (Unroller.bind(x.targets[0], x.value, m)):
+                        good = False
+                if good and set(m) == set(names) and all(_simple(x) for x in m.values()):
+                    tail = [_FoldAttr().visit(_Subst(m).visit(copy.deepcopy(r))) for r in rest] or [ast.Pass()]
+            node = None
+            for t_, body in reversed(branches):
+                node = ast.If(test=t_, body=body, orelse=[node] if node is not None else tail)
+            count[0] += 1
+            new = out[:i] + [ast.fix_missing_locations(ast.copy_location(node, st))]
+            return rewrite(new, ctx) if False else new
+        return out
+
+    tree.body = rewrite(tree.body, None)
+    return count[0]
+
+
 def normalise(tree):
     """unroll table-driven loops and fold constant getattr / setattr; returns (tree, number of loops unrolled)"""
     _single_dispatch(tree)
@@ -2693,6 +2759,17 @@ def normalise(tree):
     _delegations(tree)
     tree = _MapExtend(tree).visit(tree)
     u = Unroller(tree)
+    _cls_stack = []
+
+    def _table_of(e, cname):
+        u.cls = [cname] if cname else []
+        t = u.table(e)
+        u.cls = []
+        if t is None:
+            return None
+        return list(t[1].keys) if t[0] == "pairs" else t[1]
+
+    _first_match_searches(tree, _table_of)
     tree = u.visit(tree)
     _attrgetters(tree)  # functions of the operator module that came to stand at their call by unrolling
     tree = _FoldAttr().visit(tree)
